@@ -4,6 +4,7 @@ import Luqum.Model.Transform
 import Luqum.Model.Naming
 import Luqum.Model.Check
 import Luqum.Model.Pretty
+import Luqum.Model.Es
 
 namespace Luqum.Ops
 open Lean (Json)
@@ -37,6 +38,82 @@ def pathLt : List Nat → List Nat → Bool
 
 def sortPaths (ps : List (List Nat)) : List (List Nat) :=
   (ps.toArray.qsort pathLt).toList.eraseDups
+
+partial def jvalJ : JVal → Json
+  | .str s => str s
+  | .num d =>
+    let c := d.canon
+    Json.str s!"num:{if c.neg then 1 else 0}:{c.coeff}:{c.exp}"
+  | .bool b => Json.bool b
+  | .null => Json.null
+  | .arr xs => Json.arr (xs.map jvalJ).toArray
+  | .obj kvs => Json.mkObj (kvs.map fun kv => (String.ofList kv.1, jvalJ kv.2))
+
+partial def getJVal (j : Json) : Except String JVal :=
+  match j with
+  | .str s => pure (.str s.toList)
+  | .bool b => pure (.bool b)
+  | .null => pure .null
+  | .num n =>
+    if n.exponent == 0 then pure (.num { neg := n.mantissa < 0, coeff := n.mantissa.natAbs, exp := 0 })
+    else pure (.num { neg := n.mantissa < 0, coeff := n.mantissa.natAbs, exp := - (n.exponent : Int) })
+  | .arr a => do let xs ← a.toList.mapM getJVal; pure (.arr xs)
+  | .obj kvs => do
+    let xs ← kvs.toList.mapM fun (k, v) => do let v' ← getJVal v; pure (k.toList, v')
+    pure (.obj xs)
+
+partial def getSpec (j : Json) : Except String Spec :=
+  match j with
+  | .null => pure .none
+  | .arr a => do let xs ← a.toList.mapM (fun x => x.getStr?); pure (.list (xs.map String.toList))
+  | .obj kvs => do
+    let xs ← kvs.toList.mapM fun (k, v) => do let v' ← getSpec v; pure (k.toList, v')
+    pure (.dict xs)
+  | _ => throw "bad spec"
+
+/-- dict specs must keep the insertion order of the python dict: they are sent as [[key, value], …] -/
+partial def getSpecOrdered (j : Json) : Except String Spec :=
+  match j with
+  | .null => pure .none
+  | .obj _ => do
+    let kind ← j.getObjVal? "k" >>= Json.getStr?
+    if kind == "list" then
+      let a ← getArr j "v"
+      let xs ← a.mapM (fun x => x.getStr?)
+      pure (.list (xs.map String.toList))
+    else
+      let a ← getArr j "v"
+      let xs ← a.mapM fun e => do
+        let pair ← e.getArr?
+        let k ← (pair.getD 0 Json.null).getStr?
+        let v ← getSpecOrdered (pair.getD 1 Json.null)
+        pure (k.toList, v)
+      pure (.dict xs)
+  | _ => throw "bad ordered spec"
+
+def getCfg (j : Json) : Except String EsCfg := do
+  let fo ← match j.getObjVal? "field_options" with
+    | .ok (.obj kvs) => kvs.toList.mapM fun (k, v) => do
+        match ← getJVal v with
+        | .obj o => pure (k.toList, o)
+        | _ => throw "field option must be an object"
+    | _ => pure []
+  let na ← (getStrList j "not_analyzed" <|> pure [])
+  let sp (k : String) : Except String Spec :=
+    match j.getObjVal? k with
+    | .ok v => getSpecOrdered v
+    | .error _ => pure .none
+  return { defaultMust := getBoolD j "default_must" false,
+           defaultField := getStrD j "default_field" "text",
+           notAnalyzed := na.map String.toList,
+           nested := ← sp "nested", objectFields := ← sp "object", subFields := ← sp "sub",
+           fieldOptions := fo, matchWordAsPhrase := getBoolD j "match_word_as_phrase" false }
+
+def esErrJ : EsErr → Json
+  | .orAnd m => Json.arr #[Json.str "OrAndAndOnSameLevel", str m]
+  | .nestedSearch m => Json.arr #[Json.str "NestedSearchFieldException", str m]
+  | .objectSearch m => Json.arr #[Json.str "ObjectSearchFieldException", str m]
+  | .other c => Json.arr #[Json.str c, Json.null]
 
 def handle (j : Json) : Except String Json := do
   let op ← j.getObjVal? "op" >>= Json.getStr?
@@ -134,6 +211,18 @@ def handle (j : Json) : Except String Json := do
     match prettify cfg t with
     | some s => return Json.mkObj [("ok", str s)]
     | none => return Json.mkObj [("err", Json.str "AttributeError")]
+  | "es" =>
+    let t ← getTree (← j.getObjVal? "tree")
+    let cfg ← getCfg (← j.getObjVal? "cfg")
+    match esBuild cfg t with
+    | .ok v => return Json.mkObj [("ok", jvalJ v)]
+    | .error e => return Json.mkObj [("err", esErrJ e)]
+  | "specs" =>
+    let cfg ← getCfg (← j.getObjVal? "cfg")
+    let strs (xs : List Str) : Json := Json.arr ((xs.map String.ofList).toArray.qsort (· < ·) |>.map Json.str)
+    return Json.mkObj [("nested_prefixes", strs cfg.nestedPrefixes), ("nested_flat", strs cfg.nestedFlat),
+      ("object", match cfg.objectNorm with | some o => strs o | none => Json.null),
+      ("sub", match cfg.subNorm with | some o => strs o | none => Json.null)]
   | "echo" =>
     let t ← getTree (← j.getObjVal? "tree")
     return Json.mkObj [("tree", treeJ t)]
